@@ -24,6 +24,9 @@ type FaultSpec struct {
 	Seed     int64   `json:"seed"`
 	// LatencyMs delays every delivery (both directions): a long path
 	LatencyMs int `json:"latency_ms,omitempty"`
+	// RateKBps, if > 0, serialises each direction at this bandwidth (datagrams queue behind each
+	// other instead of arriving in one burst)
+	RateKBps int `json:"rate_kbps,omitempty"`
 	// Burst: drop every datagram with BurstFrom <= dir index < BurstTo in the given direction
 	BurstS2CFrom int `json:"burst_s2c_from,omitempty"`
 	BurstS2CTo   int `json:"burst_s2c_to,omitempty"`
@@ -48,10 +51,24 @@ func (f FaultSpec) Plan(serverAddr string) func(d *simnet.Datagram) []simnet.Del
 	if delay <= 0 {
 		delay = 30
 	}
+	var free [2]time.Time // when each direction's link is free again
 	return func(d *simnet.Datagram) []simnet.Delivery {
 		mu.Lock()
 		defer mu.Unlock()
 		c2s := d.To == serverAddr
+		queue := time.Duration(0)
+		if f.RateKBps > 0 {
+			i := 0
+			if c2s {
+				i = 1
+			}
+			now := time.Now()
+			if free[i].Before(now) {
+				free[i] = now
+			}
+			free[i] = free[i].Add(time.Duration(len(d.Data)) * time.Second / time.Duration(f.RateKBps*1000))
+			queue = free[i].Sub(now)
+		}
 		drop, dup, del := f.DropS2C, f.DupS2C, f.DelayS2C
 		bf, bt := f.BurstS2CFrom, f.BurstS2CTo
 		if c2s {
@@ -66,7 +83,7 @@ func (f FaultSpec) Plan(serverAddr string) func(d *simnet.Datagram) []simnet.Del
 			d.Fate = "drop-random"
 			return nil
 		}
-		out := []simnet.Delivery{{Delay: time.Duration(f.LatencyMs) * time.Millisecond}}
+		out := []simnet.Delivery{{Delay: queue + time.Duration(f.LatencyMs)*time.Millisecond}}
 		if has(del, d.DirIndex) {
 			out[0].Delay += time.Duration(delay) * time.Millisecond
 			d.Fate = "delay"
